@@ -122,6 +122,12 @@ def run_layouts(out, rng, n):
     cases.insert(1, {"modules": {"r1/pkg/task_m.py": {"prefixed": ["task_f"], "decorated": [], "tag": "L0"},
                                  "r2/pkg/task_m.py": {"prefixed": ["task_f"], "decorated": [], "tag": "L1"}},
                      "inits": ["r1/pkg/__init__.py", "r2/pkg/__init__.py"], "paths": ["."], "pkgs": ["r1/pkg", "r2/pkg"]})
+    # sibling directories whose names are string prefixes of one another, as path arguments
+    def sib(paths):
+        mods = {f"{d}/{fn}": {"prefixed": ["task_f"], "decorated": [], "tag": f"L{i}"}
+                for i, (d, fn) in enumerate([("src", "task_m.py"), ("src_extra", "task_m.py"), ("src_extra", "task_n.py"), ("srcx", "task_m.py"), ("src/inner", "task_n.py")])}
+        return {"modules": mods, "inits": [], "paths": paths, "pkgs": []}
+    cases[2:2] = [sib(["src", "src_extra"]), sib(["src_extra", "src"]), sib(["src", "src_extra/task_n.py"]), sib(["srcx", "src", "src/inner"]), sib(["src/inner", "src", "src"])]
     chunks = [cases[i::JOBS] for i in range(JOBS)]
     with ThreadPoolExecutor(max_workers=JOBS) as ex:
         res = list(ex.map(lambda ch: run_impl_worker("impl_collect.py", ch, timeout=3000) if ch else [], chunks))
